@@ -24,6 +24,16 @@ NOT_DECIDED = ["that the computed number equals the product over the tree and th
 F = "DecayChain.flatten"
 
 
+def _roles(ff, flow):
+    """(fs_name, bf_name): the locals handed to the result's DecayMode(product, leaves, …)."""
+    from .common import returns as _r
+    for r in _r(ff):
+        for c in ast.walk(r.value) if r.value is not None else []:
+            if isinstance(c, ast.Call) and txt(c.func) == "DecayMode" and len(c.args) == 2 and all(isinstance(a, ast.Name) for a in c.args):
+                return c.args[1].id, c.args[0].id
+    raise AnchorMissing("flatten: result DecayMode(product, leaves, …) with two local names not found")
+
+
 def run(ctx, ss):
     for r, f in (("C12.1", c12_1), ("C12.2", c12_2), ("C12.3", c12_3), ("C12.4", c12_4)):
         ctx.guard(r, f, ss)
@@ -45,7 +55,8 @@ def c12_1(ctx, ss):
     else:
         ctx.holds("C12.1", k, where(ff, ff.node), f"all {len(ef.local[ff.key])} write sites of flatten act on fresh locals", len(ef.local[ff.key]) + 1)
     # the working final state is a copy of the top-level daughters
-    defs = [d for d in flow.defs if d.name == "fs" and d.kind == "assign"]
+    FS, BF = _roles(ff, flow)
+    defs = [d for d in flow.defs if d.name == FS and d.kind == "assign"]
     ok = len(defs) == 1 and txt(defs[0].value) in ("DaughtersDict(self.decays[self.mother].daughters)", "DaughtersDict(self.top_level_decay().daughters)",
                                                   "copy(self.decays[self.mother].daughters)", "deepcopy(self.decays[self.mother].daughters)")
     (ctx.holds if ok else ctx.violation)("C12.1", ckey(ff, None, "fs-copy"), where(ff, defs[0].stmt if defs else ff.node),
@@ -100,7 +111,7 @@ def c12_2(ctx, ss):
     if isinstance(cond, ast.Name) and "True" in vals and len(anyd) == 1 and len(cd) == 2:
         g = anyd[0].value.args[0]
         if isinstance(g, ast.GeneratorExp) and len(g.generators) == 1 and not g.generators[0].ifs and txt(g.generators[0].iter) == kname \
-                and isinstance(g.elt, ast.Compare) and txt(g.elt).replace(" ", "") == f"fs[{g.generators[0].target.id}]>0":
+                and isinstance(g.elt, ast.Compare) and txt(g.elt).replace(" ", "") == f"{_roles(ff, flow)[0]}[{g.generators[0].target.id}]>0":
             # recomputed at the end of every while iteration
             okw = any(anyd[0].stmt is s for s in wl.body)
     elif isinstance(cond, ast.Call) and txt(cond.func) == "any":
@@ -132,11 +143,12 @@ def c12_3(ctx, ss):
     kv = lp.target.id
     # n_k read before any update
     m = mult[0]
-    KEEP = {"fs", kv}
+    FS, BF = _roles(ff, flow)
+    KEEP = {FS, kv}
     mv = flow.expand(m.value, keep=KEEP)
-    want_pow = f"self.decays[{kv}].bf ** fs[{kv}]"
+    want_pow = f"self.decays[{kv}].bf ** {FS}[{kv}]"
     mv_t = txt(mv)
-    okp = isinstance(m.target, ast.Name) and mv_t == want_pow
+    okp = isinstance(m.target, ast.Name) and m.target.id == BF and mv_t == want_pow
     (ctx.holds if okp else ctx.violation)("C12.3", k + " :: factor", where(ff, m),
                                           "visible bf *= bf(k) ** multiplicity(k)" if okp else f"the factor is `{mv_t[:80]}`, expected `{want_pow}`")
     # init of the product
@@ -148,23 +160,23 @@ def c12_3(ctx, ss):
                                           "the product starts from the top-level branching fraction" if oki else f"the product starts from `{txt(init[0].value) if init else None}`")
     a = add[0]
     rl = enclosing(ff, a, (ast.For,))
-    oka = txt(a.target) == "fs" and txt(a.value) == f"self.decays[{kv}].daughters" and rl and txt(flow.expand(rl[0].iter, keep=KEEP)) == f"range(fs[{kv}])"
+    oka = txt(a.target) == FS and txt(a.value) == f"self.decays[{kv}].daughters" and rl and txt(flow.expand(rl[0].iter, keep=KEEP)) == f"range({FS}[{kv}])"
     (ctx.holds if oka else ctx.violation)("C12.3", k + " :: add", where(ff, a),
                                           "the daughters of k are added multiplicity(k) times" if oka else "the daughters of k are not added exactly multiplicity(k) times")
     s = sub[0]
     sv = txt(flow.expand(s.value, keep=KEEP))
-    oks = txt(s.target) == f"fs[{kv}]" and sv == f"fs[{kv}]"
+    oks = txt(s.target) == f"{FS}[{kv}]" and sv == f"{FS}[{kv}]"
     (ctx.holds if oks else ctx.violation)("C12.3", k + " :: remove", where(ff, s),
                                           "k is removed multiplicity(k) times" if oks else f"k is decreased by `{sv}`")
     # ordering: the multiplicity local is assigned before the first update of fs in the body
-    nk = [d for d in flow.defs if d.kind == "assign" and txt(d.value) == f"fs[{kv}]"]
+    nk = [d for d in flow.defs if d.kind == "assign" and txt(d.value) == f"{FS}[{kv}]"]
     cfg = flow.cfg
     oko = len(nk) == 1 and all(cfg.dominates(cfg.node_of(nk[0].stmt), cfg.node_of(x)) for x in (m, a, s)) \
         and not cfg.reachable(cfg.node_of(a), cfg.node_of(m), avoid={cfg.node_of(lp)}) and not cfg.reachable(cfg.node_of(s), cfg.node_of(rl[0]) if rl else cfg.node_of(a), avoid={cfg.node_of(lp)})
     (ctx.holds if oko else ctx.violation)("C12.3", k + " :: read-before-update", where(ff, nk[0].stmt if nk else ff.node),
                                           "the multiplicity is read once, before the final state is updated" if oko else "the multiplicity is re-read after the final state was updated")
     conds = [(txt(e), pol) for kind, e, pol in guards.path_conditions(lp, m) if kind == "if"]
-    okg = conds == [(f"{kv} in fs", True)]
+    okg = conds == [(f"{kv} in {FS}", True)]
     (ctx.holds if okg else ctx.violation)("C12.3", k + " :: guard", where(ff, m), "substitution happens iff k is in the final state" if okg else f"substitution is guarded by {conds}")
 
 
@@ -181,7 +193,9 @@ def c12_4(ctx, ss):
         ctx.violation("C12.4", k, where(ff, rets[0]), f"flatten returns `{txt(v)[:100]}`, not a new chain {{mother: mode}}")
         return
     dm = v.args[1].values[0]
-    okm = isinstance(dm, ast.Call) and txt(dm.func) == "DecayMode" and len(dm.args) == 2 and txt(dm.args[0]) == "vis_bf" and txt(dm.args[1]) == "fs"
+    FS, BF = _roles(ff, flow)
+    augm = [n for n in pf.walk_no_nested(ff.node) if isinstance(n, ast.AugAssign) and isinstance(n.op, ast.Mult) and isinstance(n.target, ast.Name)]
+    okm = isinstance(dm, ast.Call) and txt(dm.func) == "DecayMode" and len(dm.args) == 2 and len(augm) == 1 and txt(dm.args[0]) == augm[0].target.id and txt(dm.args[1]) == FS
     star = [kw for kw in dm.keywords if kw.arg is None] if isinstance(dm, ast.Call) else []
     okmeta = len(star) == 1 and txt(star[0].value) in ("self.top_level_decay().metadata", "self.decays[self.mother].metadata")
     (ctx.holds if okm else ctx.violation)("C12.4", k + " :: mode", where(ff, rets[0]), "the single mode is DecayMode(product, leaves, …)" if okm else f"the mode is `{txt(dm)[:80]}`")
